@@ -72,6 +72,12 @@ Proof.
     + intros Hn. apply NewMnemonicByEntropy_invalid. intros Hv. apply Hn. apply Hiff. exact Hv.
 Qed.
 
+(* non-vacuity: a count far outside the five whose derived sizes would wrap onto an accepted one in 64-bit
+   arithmetic (3*2^59 + 12: n/3*32 = 2^64 + 128) is refused, and the source keeps its bytes *)
+Example C09_wrapping_count_refused :
+  NewMnemonic (3 * 2 ^ 59 + 12) 2 [(repeat x00 40, None)] = (Ret ([], Some ErrWordLen), [(repeat x00 40, None)]).
+Proof. apply C09_words_reject. unfold valid_wc_z. lia. Qed.
+
 (* the sizes: the gates read from the source accept exactly 16..32 step 4 and 12..24 step 3 *)
 Theorem C09_gates : forall n : Z,
   (Gen.Gates.gate_entropy n = false <-> (n = 16 \/ n = 20 \/ n = 24 \/ n = 28 \/ n = 32)%Z) /\
